@@ -202,7 +202,7 @@ def run(frag, tier, replay=None, solo=False):
     env["VERIF_TIER"] = tier
     env["VERIF_DIR"] = VERIF
     env.setdefault("VERIF_SEED", "0")
-    env["VERIF_EVIDENCE"] = os.path.join(VERIF, "evidence", cid + ".json")
+    env["VERIF_EVIDENCE"] = os.path.join(VERIF, "evidence", cid + frag.get("evidence_suffix", "") + ".json")
     if replay:
         env["VERIF_REPLAY"] = os.path.abspath(replay)
         env["VERIF_EVIDENCE"] = os.path.join(BUILD, "replay-evidence-" + cid + ".json")
@@ -290,6 +290,20 @@ def main(argv):
                 build(fr)
             except SystemExit as e:
                 rc = e.code or rc
+        for fr in all_fragments():
+            for extra in fr.get("extra_runs", []):
+                sub = dict(fr)
+                for k in ("extra_runs", "rewrite", "also"):
+                    sub.pop(k, None)
+                sub.update(extra)
+                k = (sub["harness"], sub.get("mode", "plain"), json.dumps(sub.get("rewrite", {}), sort_keys=True), bool(sub.get("race")))
+                if k in seen:
+                    continue
+                seen.add(k)
+                try:
+                    build(sub)
+                except SystemExit as e:
+                    rc = e.code or rc
         return rc
     if len(argv) < 3:
         print(__doc__)
@@ -320,7 +334,25 @@ def main(argv):
     if build_only:
         build(frag, solo)
         return 0
-    return run(frag, tier, replay, solo)
+    rc = run(frag, tier, replay, solo)
+    # extra_runs: further harness binaries that belong to the same check (e.g. a plain-build part next to a
+    # shim-build part). Each writes its own auxiliary evidence file evidence/<id>.<name>.json; verdicts combine.
+    if not replay or rc == 0:
+        for extra in frag.get("extra_runs", []):
+            if replay and not extra.get("replay", False):
+                continue
+            sub = dict(frag)
+            sub.pop("extra_runs", None)
+            sub.pop("rewrite", None)
+            sub.pop("also", None)
+            sub.update(extra)
+            sub["evidence_suffix"] = "." + extra["name"]
+            rc2 = run(sub, tier, replay, solo)
+            if rc2 == 1 or rc == 1:
+                rc = 1
+            elif rc2 != 0:
+                rc = rc2
+    return rc
 
 
 if __name__ == "__main__":
